@@ -409,6 +409,42 @@ def tr_case(fam, xsl, xml, site, entry='stream', opts=(), res=None, nonseed=True
             'parts': parts, 'entry': entry}
 
 
+INVALID_SHEETS = [
+    ('key-use-calls-key', S('<xsl:key name="k" match="i" use="key(\'k\', @g)/@n"/><xsl:template match="/"><o><xsl:value-of select="count(key(\'k\', \'3\'))"/></o></xsl:template>')),
+    ('key-use-calls-other-key', S('<xsl:key name="k" match="i" use="key(\'j\', @g)/@n"/><xsl:key name="j" match="i" use="key(\'k\', @n)/@g"/><xsl:template match="/"><o><xsl:value-of select="count(key(\'k\', \'3\'))"/></o></xsl:template>')),
+    ('key-match-calls-key', S('<xsl:key name="k" match="key(\'k\', \'x\')" use="@n"/><xsl:template match="/"><o><xsl:value-of select="count(key(\'k\', \'3\'))"/></o></xsl:template>')),
+    ('key-use-variable', S('<xsl:variable name="v" select="1"/><xsl:key name="k" match="i" use="$v"/><xsl:template match="/"><o><xsl:value-of select="count(key(\'k\', \'1\'))"/></o></xsl:template>')),
+    ('key-match-variable', S('<xsl:variable name="v" select="1"/><xsl:key name="k" match="i[$v]" use="@n"/><xsl:template match="/"><o><xsl:value-of select="count(key(\'k\', \'3\'))"/></o></xsl:template>')),
+    ('template-match-variable', S('<xsl:variable name="v" select="1"/><xsl:template match="i[$v]"><p/></xsl:template><xsl:template match="/"><o><xsl:apply-templates select="//i"/></o></xsl:template>')),
+    ('circular-global-variables', S('<xsl:variable name="a" select="$b + 1"/><xsl:variable name="b" select="$a + 1"/><xsl:template match="/"><o><xsl:value-of select="$a"/></o></xsl:template>')),
+    ('circular-global-through-template', S('<xsl:variable name="a"><xsl:call-template name="t"/></xsl:variable><xsl:template name="t"><xsl:value-of select="$a"/></xsl:template><xsl:template match="/"><o><xsl:value-of select="$a"/></o></xsl:template>')),
+    ('circular-key-in-global', S('<xsl:key name="k" match="i" use="@n"/><xsl:variable name="a" select="count(key(\'k\', $a))"/><xsl:template match="/"><o><xsl:value-of select="$a"/></o></xsl:template>')),
+    ('attribute-set-cycle', S('<xsl:attribute-set name="a" use-attribute-sets="b"><xsl:attribute name="x">1</xsl:attribute></xsl:attribute-set><xsl:attribute-set name="b" use-attribute-sets="a"/>'
+                              '<xsl:template match="/"><o xsl:use-attribute-sets="a"/></xsl:template>')),
+    ('attribute-set-self', S('<xsl:attribute-set name="a" use-attribute-sets="a"><xsl:attribute name="x">1</xsl:attribute></xsl:attribute-set><xsl:template match="/"><o xsl:use-attribute-sets="a"/></xsl:template>')),
+    ('import-itself', S('<xsl:import href="main.xsl"/><xsl:template match="/"><o/></xsl:template>')),
+    ('include-itself', S('<xsl:include href="main.xsl"/><xsl:template match="/"><o/></xsl:template>')),
+    ('duplicate-named-templates', S('<xsl:template name="t"><a/></xsl:template><xsl:template name="t"><b/></xsl:template><xsl:template match="/"><o><xsl:call-template name="t"/></o></xsl:template>')),
+    ('call-unknown-template', S('<xsl:template match="/"><o><xsl:call-template name="nosuch"/></o></xsl:template>')),
+    ('duplicate-variable-in-scope', S('<xsl:template match="/"><o><xsl:variable name="v" select="1"/><xsl:variable name="v" select="2"/><xsl:value-of select="$v"/></o></xsl:template>')),
+    ('param-after-content', S('<xsl:template match="/"><o><xsl:call-template name="t"/></o></xsl:template><xsl:template name="t"><a/><xsl:param name="p" select="1"/><xsl:value-of select="$p"/></xsl:template>')),
+    ('apply-imports-in-for-each', S('<xsl:template match="/"><o><xsl:for-each select="//i"><xsl:apply-imports/></xsl:for-each></o></xsl:template>')),
+    ('apply-imports-without-current-rule', S('<xsl:template match="/"><o><xsl:call-template name="t"/></o></xsl:template><xsl:template name="t"><xsl:for-each select="//i"><xsl:apply-imports/></xsl:for-each></xsl:template>')),
+    ('unknown-decimal-format', S('<xsl:template match="/"><o><xsl:value-of select="format-number(1, \'0\', \'nosuch\')"/></o></xsl:template>')),
+    ('duplicate-decimal-format', S('<xsl:decimal-format name="d" decimal-separator=","/><xsl:decimal-format name="d" decimal-separator=";"/><xsl:template match="/"><o><xsl:value-of select="format-number(1.5, \'0,0\', \'d\')"/></o></xsl:template>')),
+    ('sort-outside', S('<xsl:template match="/"><o><xsl:sort select="."/><xsl:if test="1"><xsl:sort select="."/></xsl:if></o></xsl:template>')),
+    ('namespace-alias-unknown-prefix', S('<xsl:namespace-alias stylesheet-prefix="zz" result-prefix="yy"/><xsl:template match="/"><o/></xsl:template>')),
+    ('element-prefix-undeclared', S('<xsl:template match="/"><xsl:element name="zz:e"><xsl:attribute name="yy:a">1</xsl:attribute></xsl:element></xsl:template>')),
+    ('text-with-element-child', S('<xsl:template match="/"><o><xsl:text>a<b/>c</xsl:text></o></xsl:template>')),
+    ('value-of-with-content', S('<xsl:template match="/"><o><xsl:value-of select="1">x<b/></xsl:value-of></o></xsl:template>')),
+    ('attribute-after-child', S('<xsl:template match="/"><o><b/><xsl:attribute name="a">1</xsl:attribute></o></xsl:template>')),
+    ('attribute-at-top', S('<xsl:template match="/"><xsl:attribute name="a">1</xsl:attribute><o/></xsl:template>')),
+    ('number-from-root-any', S('<xsl:template match="/"><o><xsl:number level="any" from="/" count="/"/><xsl:number level="multiple" count="/" from="nosuch"/></o></xsl:template>')),
+    ('message-terminate-in-global', S('<xsl:variable name="g"><xsl:message terminate="yes">stop</xsl:message></xsl:variable><xsl:template match="/"><o><xsl:value-of select="$g"/></o></xsl:template>')),
+    ('document-of-itself-recursive', S('<xsl:template match="/"><o><xsl:apply-templates select="document(\'\')/*/xsl:template" mode="m"/></o></xsl:template><xsl:template match="xsl:template" mode="m"><t><xsl:apply-templates select="document(\'\')/*/xsl:variable" mode="m"/></t></xsl:template>')),
+]
+
+
 def blocks_stylesheet(tier):
     thorough = tier == 'thorough'
     entries1 = ['stream', 'compiled-st', 'capis', 'mixed', 'target'] if thorough else ['stream', 'compiled-st']
@@ -420,6 +456,14 @@ def blocks_stylesheet(tier):
             for en in ['stream', 'target', 'compiled-st', 'compiled-xw', 'mixed', 'pi', 'capi', 'capis']:
                 yield tr_case('stylesheet', ser(tree), DOC1, 'seed:' + name, en, res=SEED_RES, nonseed=False)
     out.append(('stylesheet', len(seeds) * 8, seed0))
+
+    # stylesheets with a semantic error that only a check of the PROCESSOR finds (the XML is well formed, every instruction is known):
+    # each must be answered by an error or by a defined recovery, never by a crash, a hang or an endless recursion
+    def invalid():
+        for name, x in INVALID_SHEETS:
+            for en in ['stream', 'compiled-st'] + (['capis', 'mixed'] if thorough else []):
+                yield tr_case('stylesheet', x, DOC1, 'invalid:' + name, en, ['o:cap=%d' % RECURSION_CAP_MB], res=SEED_RES, timeout=30)
+    out.append(('stylesheet', len(INVALID_SHEETS) * 2, invalid))
     for name, tree in seeds:
         eds = edits_of(tree)
         # the edits that make a template call itself run until the memory cap: one block each so that they spread over the shards
